@@ -91,7 +91,7 @@ def mk_ma(lit):
         a = Asset()
         for n, q in names:
             a[AssetName(bytes.fromhex(n))] = q
-        ma[ScriptHash(bytes.fromhex(p))] = a
+        ma[pol(p)] = a
     return ma
 
 
@@ -142,7 +142,7 @@ def k_ovf(c):
         cur[AssetName(bytes.fromhex(n))] = q
     before = (dump_val(out.amount), dict((k.payload.hex(), v) for k, v in cur.data.items()))
     r = guarded(lambda: bool(b._adding_asset_make_output_overflow(
-        out, cur, ScriptHash(bytes.fromhex(c['pid'])), AssetName(bytes.fromhex(c['name'])), c['q'], c['mvs'],
+        out, cur, pol(c['pid']), AssetName(bytes.fromhex(c['name'])), c['q'], c['mvs'],
         c.get('max_coin', 0))))
     r['unchanged'] = (dump_val(out.amount), dict((k.payload.hex(), v) for k, v in cur.data.items())) == before
     return r
@@ -285,7 +285,7 @@ def k_ser(c):
             o.amount.coin = v[0]
             for p, names in v[1]:
                 for n, q in names:
-                    o.amount.multi_asset[ScriptHash(bytes.fromhex(p))][AssetName(bytes.fromhex(n))] = q
+                    o.amount.multi_asset[pol(p)][AssetName(bytes.fromhex(n))] = q
         r = guarded(run)
         r['first'] = first
         return r
